@@ -20,6 +20,8 @@ ALPHABET = [
 # Sub-alphabets for deeper exhaustive enumeration of the two stateful parts of the tokenizer.
 FSTR_ALPHABET = ['a', ' ', '{', '}', ':', '!', "'", '"', '\n', '\\', '(', ')', '\u2028', 'f', '#', '=', '"""', "'''",
                  '\\\n', '\t']
+NUM_ALPHABET = ['1', '0', '_', '.', 'e', '+', '-', 'j', 'x', 'b', 'o', 'f', '9', 'E']
+STRLIT_ALPHABET = ['r', 'b', 'u', 'f', 'R', 'B', "'", '"', 'a', '\\', '{', '}', ' ']
 INDENT_ALPHABET = ['a', ' ', '\t', '\n', '\r', '\\', '#', '(', ')', ':', '\f', 'del']
 
 
@@ -55,7 +57,8 @@ POOL = ['def ', 'x', 'y', '(', ')', ':', '\n', '    ', '  ', 'if ', 'else', 'eli
         'del ', 'pass', 'break', 'not ', '**', '->', ':=', '@', '{', '}', '"""', "'", '"', 'f"', "f'''",
         '!r', ';', '\r', '\f', ' ', '0x1', '1.5e3', '\xe9', '$', '?', '\ufeff', 'except', 'finally', 'None',
         'global ', 'nonlocal ', 'assert ', 'raise ', 'print', '...', '\\', '       ', 'b"x"', "rb'", '1_0',
-        'match ', 'case ', '%', '//', '<<=', '~', '!=', 'is ', 'and ', 'or ', 'continue']
+        'match ', 'case ', '%', '//', '<<=', '~', '!=', 'is ', 'and ', 'or ', 'continue',
+        '#', '# ', '#   ', ' ' * 19, ' ' * 41, 'value = compute()  ', '# http://example.com/' + 'a' * 70, '\n#\n', 'x  # ']
 
 
 def pool_strings(n, rng, maxlen=16):
